@@ -148,7 +148,10 @@ func (c *Cluster) Open() []iface.Store {
 }
 
 // Reopen restarts peer i's instance and reopens + loads the database.
-func (c *Cluster) Reopen(ctx context.Context, i int) error {
+func (c *Cluster) Reopen(ctx context.Context, i int) error { return c.ReopenLimit(ctx, i, -1) }
+
+// ReopenLimit is Reopen with Load(amount).
+func (c *Cluster) ReopenLimit(ctx context.Context, i int, amount int) error {
 	p := c.W.Peers[i]
 	p.StopInstance()
 	if _, err := p.StartInstance(ctx); err != nil {
@@ -159,7 +162,7 @@ func (c *Cluster) Reopen(ctx context.Context, i int) error {
 		return err
 	}
 	c.Stores[i] = s
-	return s.Load(ctx, -1)
+	return s.Load(ctx, amount)
 }
 
 // Settle waits for rest.
